@@ -113,6 +113,13 @@ def parentsFirst (s : State) (l : List Nat) : Bool :=
        | some t => (memParents K t).all fun p => seen.contains p || !l.contains p) && go (b :: seen) r
   go [] l
 
+/-- put the observed order into the occupied slots of the ring, keeping the zeroed slots where they are -/
+def refill : List (Option Nat) → List Nat → List (Option Nat)
+  | [], _ => []
+  | none :: r, ks => none :: refill r ks
+  | some _ :: r, k :: ks => some k :: refill r ks
+  | some x :: r, [] => some x :: refill r []
+
 def step (o : OSt) (toks : List String) : OSt × String :=
   let bad := (o, "bad-op")
   let s := o.s
@@ -180,7 +187,7 @@ def step (o : OSt) (toks : List String) : OSt × String :=
     match n.toNat?.bind (fun n => takeN parseKey n rest) with
     | some (ks, []) =>
       let cur := s.ring.filterMap id
-      if isPerm cur ks then ({ o with s := { s with ring := ks.map some } }, "ok") else (o, "bad")
+      if isPerm cur ks then ({ o with s := { s with ring := refill s.ring ks } }, "ok") else (o, "bad")
     | _ => bad
   | "setorder" :: n :: rest =>
     match n.toNat?.bind (fun n => takeN parseKey n rest) with
